@@ -24,6 +24,8 @@ type SpecEnv struct {
 	at     *ssa.BasicBlock
 	locals bool
 	bound  map[string]bool
+	facts  *[]string // type invariants of heap values read by the formula being translated
+	goal   bool      // the formula is to be proved (facts become premises) rather than assumed (facts are conjoined)
 }
 
 var untypedInt = types.Typ[types.UntypedInt]
@@ -57,6 +59,11 @@ func (e *SpecEnv) clone() *SpecEnv {
 }
 
 func (e *SpecEnv) boolTerm(x Expr) (string, error) {
+	top := e.facts == nil
+	if top {
+		e.facts = &[]string{}
+		defer func() { e.facts = nil }()
+	}
 	v, err := e.term(x)
 	if err != nil {
 		return "", err
@@ -64,7 +71,38 @@ func (e *SpecEnv) boolTerm(x Expr) (string, error) {
 	if !isBoolVal(v) {
 		return "", fmt.Errorf("boolean expected: %s", exprString(x))
 	}
+	if top && len(*e.facts) > 0 {
+		if e.goal {
+			return implies(and(dedupStrs(*e.facts)...), v.T), nil
+		}
+		return and(append(dedupStrs(*e.facts), v.T)...), nil
+	}
 	return v.T, nil
+}
+
+func dedupStrs(in []string) []string {
+	seen := map[string]bool{}
+	var out []string
+	for _, s := range in {
+		if !seen[s] && s != "true" {
+			seen[s] = true
+			out = append(out, s)
+		}
+	}
+	return out
+}
+
+// readFact records the type invariant of a value read from the heap.
+func (e *SpecEnv) readFact(t string, typ types.Type) {
+	if e.facts == nil || typ == nil {
+		return
+	}
+	switch typ.Underlying().(type) {
+	case *types.Basic, *types.Slice:
+		if f := e.c.typeFacts(t, typ, ""); f != "true" {
+			*e.facts = append(*e.facts, f)
+		}
+	}
 }
 
 func isBoolVal(v Val) bool {
@@ -256,17 +294,35 @@ func (e *SpecEnv) term(x Expr) (Val, error) {
 				}
 			}
 		}
+		ne.facts = &[]string{}
 		body, err := ne.boolTerm(n.Body)
 		if err != nil {
 			return Val{}, err
 		}
+		fs := dedupStrs(*ne.facts)
 		k := "exists"
 		if n.Forall {
 			k = "forall"
-			body = implies(and(guards...), body)
+			if e.goal {
+				body = implies(and(append(guards, fs...)...), body)
+			} else {
+				body = implies(and(guards...), and(append(fs, body)...))
+			}
 			// trigger: the left side of the concluding equality, when it is an
 			// application mentioning every bound variable
-			if pats := ne.triggerFor(n); len(pats) > 0 {
+			if len(n.Pats) > 0 {
+				var ps []string
+				for _, pe := range n.Pats {
+					before := len(c.Log)
+					pv, err := ne.term(pe)
+					c.Log = c.Log[:before]
+					if err != nil {
+						return Val{}, fmt.Errorf("pattern: %v", err)
+					}
+					ps = append(ps, pv.T)
+				}
+				body = "(! " + body + " :pattern (" + strings.Join(ps, " ") + "))"
+			} else if pats := ne.triggerFor(n); len(pats) > 0 {
 				body = "(! " + body
 				for _, p := range pats {
 					body += " :pattern (" + p + ")"
@@ -274,7 +330,7 @@ func (e *SpecEnv) term(x Expr) (Val, error) {
 				body += ")"
 			}
 		} else {
-			body = and(append(guards, body)...)
+			body = and(append(append(guards, fs...), body)...)
 		}
 		return Val{T: "(" + k + " (" + strings.Join(binds, " ") + ") " + body + ")", Typ: boolT}, nil
 	case *ESel:
@@ -600,7 +656,9 @@ func (e *SpecEnv) selector(n *ESel) (Val, error) {
 					return Val{T: c.subRef(pt.Elem(), i, x.T), Typ: types.NewPointer(ft)}, nil
 				}
 				h, srt := c.fieldHeap(pt.Elem(), i)
-				return Val{T: "(select " + c.heapGet(e.cur, h, srt) + " " + x.T + ")", Typ: ft}, nil
+				rt := "(select " + c.heapGet(e.cur, h, srt) + " " + x.T + ")"
+				e.readFact(rt, ft)
+				return Val{T: rt, Typ: ft}, nil
 			}
 		}
 		return Val{}, fmt.Errorf("no field %s in %s", n.Sel, pt.Elem())
@@ -608,7 +666,9 @@ func (e *SpecEnv) selector(n *ESel) (Val, error) {
 	if st, ok := t.Underlying().(*types.Struct); ok {
 		for i := 0; i < st.NumFields(); i++ {
 			if st.Field(i).Name() == n.Sel {
-				return Val{T: c.structSel(t, i, x.T), Typ: st.Field(i).Type()}, nil
+				rt := c.structSel(t, i, x.T)
+				e.readFact(rt, st.Field(i).Type())
+				return Val{T: rt, Typ: st.Field(i).Type()}, nil
 			}
 		}
 		return Val{}, fmt.Errorf("no field %s in %s", n.Sel, t)
@@ -637,7 +697,9 @@ func (e *SpecEnv) index(n *EIndex) (Val, error) {
 	switch u := x.Typ.Underlying().(type) {
 	case *types.Slice:
 		h, srt := c.memHeap(u.Elem())
-		return Val{T: "(select (select " + c.heapGet(e.cur, h, srt) + " (sl.base " + x.T + ")) " + c.eidx("(sl.off "+x.T+")", e.idx(i)) + ")", Typ: u.Elem()}, nil
+		rt := "(select (select " + c.heapGet(e.cur, h, srt) + " (sl.base " + x.T + ")) " + c.eidx("(sl.off "+x.T+")", e.idx(i)) + ")"
+		e.readFact(rt, u.Elem())
+		return Val{T: rt, Typ: u.Elem()}, nil
 	case *types.Array:
 		return Val{T: "(select " + x.T + " " + e.idx(i) + ")", Typ: u.Elem()}, nil
 	case *types.Basic:
@@ -798,6 +860,31 @@ func (e *SpecEnv) call(n *ECall) (Val, error) {
 			}
 			d, _ := c.mapHeaps(mt)
 			return Val{T: and(not(eq(m.T, "0")), "(select (select "+c.heapGet(e.cur, d, c.heapSort[d])+" "+m.T+") "+k.T+")"), Typ: boolT}, nil
+		case "arr":
+			v, err := e.term(n.Args[0])
+			if err != nil {
+				return Val{}, err
+			}
+			sl, ok := v.Typ.Underlying().(*types.Slice)
+			if !ok {
+				return Val{}, fmt.Errorf("arr of non-slice")
+			}
+			h, srt := c.memHeap(sl.Elem())
+			return Val{T: "(select " + c.heapGet(e.cur, h, srt) + " (sl.base " + v.T + "))", Typ: types.NewArray(sl.Elem(), 1<<40)}, nil
+		case "ix":
+			a, err := e.term(n.Args[0])
+			if err != nil {
+				return Val{}, err
+			}
+			b, err := e.term(n.Args[1])
+			if err != nil {
+				return Val{}, err
+			}
+			t := types.Type(mathInt)
+			if c.Mode == ModeBV {
+				t = types.Typ[types.Int]
+			}
+			return Val{T: c.eidx(e.idx(a), e.idx(b)), Typ: t}, nil
 		case "base":
 			v, err := e.term(n.Args[0])
 			if err != nil {
@@ -1322,14 +1409,17 @@ func (e *SpecEnv) targets(x Expr) ([]havocTarget, error) {
 }
 
 func (e *SpecEnv) objTargets(r string, t types.Type) []havocTarget {
-	c := e.c
+	return e.c.objTargets(r, t)
+}
+
+func (c *Ctx) objTargets(r string, t types.Type) []havocTarget {
 	var out []havocTarget
 	switch u := t.Underlying().(type) {
 	case *types.Struct:
 		for i := 0; i < u.NumFields(); i++ {
 			ft := u.Field(i).Type()
 			if isStruct(ft) {
-				out = append(out, e.objTargets(c.subRef(t, i, r), ft)...)
+				out = append(out, c.objTargets(c.subRef(t, i, r), ft)...)
 			} else {
 				h, _ := c.fieldHeap(t, i)
 				out = append(out, havocTarget{h, r})
